@@ -239,6 +239,12 @@ def spaces(tier, variant, seed):
             r = f_get_d(z.p)
             if r != td:
                 R.fail("mpz_get_d", "get_d(%x) = %r expected %r (truncation)" % (v, r, td))
+        elif td is None and a.bit_length() > 1024:
+            # beyond the double range the manual calls the result system dependent: whatever it is, it is a number of the operand's sign
+            # and at least as large as the largest finite double (an infinity, or DBL_MAX by truncation) - never a NaN, never smaller
+            r = f_get_d(z.p)
+            if r != r or (r > 0) != (v > 0) or abs(r) < 1.7976931348623157e308:
+                R.fail("mpz_get_d", "get_d of a %d-bit value = %r: not a number of the operand's sign beyond the largest finite double" % (a.bit_length(), r))
         ex = c_long(12345)
         r = f_get_d_2exp(byref(ex), z.p)
         if v == 0:
